@@ -37,3 +37,5 @@ OBS.append(Ob(['C05', 'C06', 'C04'], 'hist_clear_reuse', 'doc', 'harness/doc_his
 for fa in (0, 1):
     OBS.append(Ob(['C05', 'C19', 'C04'], 'ext_fail%d' % fa, 'doc', 'harness/doc_hist.c', 'h_ext_fail', defs=['EXTFAIL=%d' % fa], unwind=8, desc='doc.set(64-bit integer) with allocator call #%d failing (0 = none): failure reported, overflowed() set, value left null / stored exactly' % fa, bound='all int64 values outside the int32 range', **H))
 OBS.append(Ob(['C04', 'C06'], 'readonly_proxy', 'doc', 'harness/doc_hist.c', 'h_readonly_proxy', unwind=8, desc='nesting()/size()/isNull()/operator| on a proxy of a missing element: document unchanged, no allocator call', bound='all int32 values; index 3 of a 1-element array', **H))
+OBS.append(Ob(['C13'], 'copyarray_out', 'doc', 'harness/doc_hist.c', 'h_copyarray_out', unwind=8, desc='copyArray([a,b,c], int* dst, cap): returns min(cap,3), copies in order, guard elements untouched', bound='all int32 values, capacity 0..4', **H))
+OBS.append(Ob(['C13'], 'copyarray_str', 'doc', 'harness/doc_hist.c', 'h_copyarray_str', unwind=10, desc='copyArray(string value, char[4]): truncated, always NUL-terminated, guard bytes untouched', bound='all strings of 0..6 non-NUL bytes', **H))
